@@ -203,6 +203,8 @@ def check_network(case):
     ref = forward_ref(want, T)
     for i, n in enumerate(names):
         cmp_dict(rows[n], ref[i], "cross-module-rows")
+    if len(fwd) != T:
+        raise Violation("forward-arity", f"{len(fwd)} excess distributions derived from the network's joint degree distribution, {T} topologies")
     for i in range(T):
         cmp_dict(fwd[i], ref[i], "cross-module-forward")
     # the annotations are still the joint degrees they were (nothing was counted down in place)
